@@ -7,8 +7,10 @@ Nothing here imports jsonargparse.  Everything is a JSON value:
   every "K");
 * a *program*   is ``{"form": ..., ...}`` (see ``leaves`` and ``c12.space``), rendered by ``source`` into one importable module;
 * an *input*    is ``{"sel": leaf index, "as_pos": bool, "assign": [[[channel, alt], ...] per stage], "layout": "ol"|"of",
-  "style": "eq"|"sp", "cfg": "top"|"own"[, "cfgpos": "last"][, "sib": leaf index]}`` with channel "-" (omitted),
-  "a" (argv) or "c" (--config file); alt picks the other one of the two values of the type; layout = positionals or
+  "style": "eq"|"sp", "cfg": "top"|"own"[, "cfgpos": "last"][, "sib": leaf index][, "cfg2": level]}`` with channel
+  "-" (omitted), "a" (argv), "c" (--config file) or "d" (a SECOND --config file, given at parser level ``cfg2``: 0 =
+  at the top level directly after the first one, k = after the token of the k-th sub-command level; it holds nested
+  sections for the levels below its own); alt picks the other one of the two values of the type; layout = positionals or
   options first; style = ``--name=value`` or ``--name value``; cfg = one top-level config with nested sections or one
   config per parser level; cfgpos = --config after the other tokens of its level; sib = the top-level config also
   holds a complete section for that sibling leaf; ``"selcfg": k`` = the tokens of the last k sub-command levels are
@@ -22,9 +24,15 @@ Nothing here imports jsonargparse.  Everything is a JSON value:
 * ``program["flip"] = 1`` makes every parameter use the other default and the other value (the choice between the two
   is otherwise fixed by the parity of position + role, so that same-named parameters of two components differ).
 
+* type keys: the 8 of ``TYPE_ORDER`` (the product alphabet) and the 11 of ``X_ORDER`` (second alphabet: Optional of
+  str / enum / parametrized generics / a Union, Tuple, a dataclass, Optional[dataclass], a class given by class_path,
+  Optional[class]; ``xsignatures`` = one of them at one position, ``int`` elsewhere).
+
 The interface rule the harness relies on (documented for auto_cli): with ``as_positional=True`` a parameter without
 default whose annotation is not Optional is a positional argument (in signature order); every other parameter is the
-option ``--<name>``.  Positional tokens are consumed in order, therefore within one parser level the positionals given
+option ``--<name>``.  A parameter typed with a dataclass is never a positional: its fields are the options
+``--<name>.<field>`` and ``--<name>`` takes the whole value; it is required when the dataclass has a field without
+default (the generated ``Opt`` has one).  A class-typed value is ``{"class_path": ..., "init_args": {...}}``.  Positional tokens are consumed in order, therefore within one parser level the positionals given
 on the command line must be a prefix of that level's positionals, and a sub-command token can only be written when
 every positional of the level before it is on the command line too (``build`` returns None for inputs that cannot be
 written down; they are counted, not judged).
@@ -795,10 +803,11 @@ PLANS = {"none": no_inputs, "argv": decoy1_inputs, "full": full_inputs, "product
 def inputs(program, plan):
     """All inputs of a program.  `plan` = plan of the enumerated leaf/leaves ("full" | "lean" | "lean3" | "argv" =
     everything on the command line, nothing else), optionally
-    suffixed ":deep" (dict form: only the deepest leaf), ":first" (lean3: omit only the first required parameter) or
+    suffixed ":deep" (dict form: only the deepest leaf), ":first" (lean3: omit only the first required parameter),
+    ":first1" (the same, and only for type vectors with at most one non-int type), ":two" (`twocfg_inputs`) or
     ":sel" (additionally `selcfg_inputs`: sub-commands selected through the config, with and without sibling sections)."""
     plan, *opts = plan.split(":")
-    opt = next((o for o in opts if o in ("deep", "first")), "")
+    opt = next((o for o in opts if o in ("deep", "first", "first1")), "")
     lv = leaves(program)
     form = program["form"]
     for sel, stages in enumerate(lv):
@@ -816,6 +825,12 @@ def inputs(program, plan):
             yield from full_inputs(sel, stages, len(lv))
         elif main and plan == "lean3" and opt == "first":
             yield from lean3_inputs(sel, stages, first_only=True)
+        elif main and plan == "lean3" and opt == "first1":
+            # as "first", but the omission only for type vectors that differ from `int` in at most one position
+            plain = sum(p[0] != "int" for st in stages for p in st["sig"]) <= 1
+            for inp in lean3_inputs(sel, stages, first_only=True):
+                if plain or not any(c[0] == "-" and is_required(p) for row, st in zip(inp["assign"], stages) for c, p in zip(row, st["sig"])):
+                    yield inp
         else:
             yield from PLANS[plan if main else ("decoy" if plan == "full" else "decoy1")](sel, stages)
         if "sel" in opts:
